@@ -258,8 +258,7 @@ func c14Run(cf *c14Cfg, o *eng.Outcome) (*data.MarkupInfo, bool) {
 	return &res.MarkupInfo, true
 }
 
-func c14Check(c *eng.Case) *eng.Outcome {
-	o := &eng.Outcome{}
+func c14Cfg0(c *eng.Case) *c14Cfg {
 	cf := &c14Cfg{on: map[string]bool{}, optout: c.Get("optout")}
 	fmt.Sscan(c.Get("order"), &cf.order)
 	if ts := c.Get("toggles"); ts != "" {
@@ -267,6 +266,14 @@ func c14Check(c *eng.Case) *eng.Outcome {
 			cf.on[t] = true
 		}
 	}
+	return cf
+}
+
+func c14Render(c *eng.Case) string { return c14Doc(c14Cfg0(c)) }
+
+func c14Check(c *eng.Case) *eng.Outcome {
+	o := &eng.Outcome{}
+	cf := c14Cfg0(c)
 	c.HTML = c14Doc(cf)
 	full, ok := c14Run(cf, o)
 	if !ok {
